@@ -137,3 +137,38 @@ Lemma sound_class_fx fuel P c R kws :
 Proof.
   intros H Hr. rewrite (fx_same_in_guard_top fuel P c H) in Hr. apply sound_class; assumption.
 Qed.
+
+(* ---- classes that inherit __init__ (repaired resolver, fx_mro) ------------------------------------- *)
+Lemma klass_top_inh_widens fuel P c : klass_top fuel P c = 0%N -> klass_top_inh fuel P c = 0%N.
+Proof.
+  intro H. destruct (klass_top_inv _ _ _ H) as [Hag Hfr]. unfold klass_top_inh.
+  rewrite (class_agree_eq _ _ _ Hag).
+  destruct (class_frame Resolver fuel P c) as [[fr|]|]; [exact Hfr|reflexivity|destruct Hfr].
+Qed.
+
+Lemma sound_class_inh fuel P c R kws :
+  klass_top_inh fuel P c = 0%N ->
+  resolve_fx all_fixes fuel P c = Ok R ->
+  NoDup kws ->
+  (forall n, In n kws -> In n (names R)) ->
+  good_outcome (fst (call fuel P c kws)) = true.
+Proof.
+  unfold klass_top_inh, resolve_fx, class_frame_fx, call. cbn [all_fixes fx_mro].
+  intros Hk Hr Hnd Hin.
+  destruct (class_frame Interp fuel P c) as [[fr|]|e]; [| |discriminate].
+  - rewrite (fx_same_in_guard fuel P fr Hk) in Hr.
+    eapply sound_frame; eauto. lia.
+  - inversion Hr; subst R. destruct kws as [|n r]; [reflexivity|].
+    destruct (Hin n (or_introl eq_refl)).
+Qed.
+
+(* what the repaired resolver offers for a class that inherits __init__ is what the faithful model offers for
+   the frame of the inherited __init__ at its own MRO position *)
+Lemma resolve_inh_frame fuel P c fr :
+  class_frame Interp fuel P c = Ok (Some fr) -> klass fuel P fr = 0%N ->
+  resolve_fx all_fixes fuel P c = resolve_frame fuel P fr.
+Proof.
+  intros Hcf Hk. unfold resolve_fx, class_frame_fx. cbn [all_fixes fx_mro]. rewrite Hcf.
+  apply fx_same_in_guard. exact Hk.
+Qed.
+
